@@ -219,12 +219,12 @@ func (e *Env) Internal(format string, a ...any) {
 	e.mu.Unlock()
 }
 
-func (e *Env) SetRule(r string)      { e.mu.Lock(); e.rule = r; e.mu.Unlock() }
-func (e *Env) SetLevel(l string)     { e.mu.Lock(); e.level = l; e.mu.Unlock() }
-func (e *Env) SetExhaustive(b bool)  { e.mu.Lock(); e.exhaust = b; e.mu.Unlock() }
-func (e *Env) Assume(a string)       { e.mu.Lock(); e.assume = append(e.assume, a); e.mu.Unlock() }
-func (e *Env) Evaluations() int64    { e.mu.Lock(); defer e.mu.Unlock(); return e.evals }
-func (e *Env) ViolationCount() int   { e.mu.Lock(); defer e.mu.Unlock(); return len(e.viol) }
+func (e *Env) SetRule(r string)       { e.mu.Lock(); e.rule = r; e.mu.Unlock() }
+func (e *Env) SetLevel(l string)      { e.mu.Lock(); e.level = l; e.mu.Unlock() }
+func (e *Env) SetExhaustive(b bool)   { e.mu.Lock(); e.exhaust = b; e.mu.Unlock() }
+func (e *Env) Assume(a string)        { e.mu.Lock(); e.assume = append(e.assume, a); e.mu.Unlock() }
+func (e *Env) Evaluations() int64     { e.mu.Lock(); defer e.mu.Unlock(); return e.evals }
+func (e *Env) ViolationCount() int    { e.mu.Lock(); defer e.mu.Unlock(); return len(e.viol) }
 func (e *Env) Counter(k string) int64 { e.mu.Lock(); defer e.mu.Unlock(); return e.counters[k] }
 
 // Snapshot produces the Result for the parent.
